@@ -132,6 +132,9 @@ type Span struct {
 	Modules    []string `json:"modules"`   // distinct, sorted
 	Unmoduled  bool     `json:"unmoduled"` // some touched type/relation has no module
 	TuplePairs []string `json:"type_rels"` // "type/relation" of every write and delete
+	// cell of the {writes half} x {deletes half} product (methods.go writeHalfProduct); "" for hand-written shapes
+	Writes  string `json:"writes_half,omitempty"`
+	Deletes string `json:"deletes_half,omitempty"`
 }
 
 func spanOf(typeRels []string) Span {
@@ -158,7 +161,9 @@ func spanOf(typeRels []string) Span {
 //   - the relation for the method on THAT store: allowed.
 //   - Write only: a request confined to exactly one module (every touched type/relation carries that
 //     module) is also allowed by the relation on that module. A request spanning two modules, or touching
-//     anything without a module, needs the store-level relation.
+//     anything without a module, needs the store-level relation. "Touched" ranges over the tuples of BOTH
+//     halves of the request (writes and deletes) together: a module-less tuple in one half is not redeemed
+//     by the other half lying in a module, and two halves in different modules are a two-module request.
 func expectStoreScoped(g grantSet, caller, store, rel string, span *Span) bool {
 	if !hasIdentity(caller) {
 		return false
